@@ -121,6 +121,10 @@ def _case(t):
                                       seconds=4 if v[0] == 'hang' else 15, pass_level=(v[0] == 'hang'))
                 if v[0] == 'signal':
                     locus = v[1].strip() + ' @ ' + locus
+                elif locus in ('pass align_all', 'pass indent_text', 'pass do_code_width') and 'code_width' in cfg_text(cfgname):
+                    # these three passes run inside the driver's unbounded 'while (old_changes != cpd.changes)' width loop: a livelock of
+                    # that loop is sampled in any of them, so they share one key
+                    locus = 'width-loop (align_all/indent_text/do_code_width)'
         return (cid, res.how(), res.status, len(res.stdout), v, locus,
                 res.stderr[-600:].decode(errors='replace'), (res.san_report or '')[:3000])
     finally:
